@@ -283,7 +283,7 @@ func init() {
 		Batches: []Batch{
 			{World: "rl", Profile: "c18-lifecycle", Quick: 200, Thor: 10000, PerProc: 1},
 		},
-		Rule: "each run = 1-2 replicas (store local / API-backed write-through / periodic), one upstream with an allocate and a count schema, 2-4+ instances with real client sets (heartbeats every second); 25-90 steps of allocate reports, acquire reports, clock advances (1-36 s), instances dying or being cut off, coming back with the old identity or joining anew, a replica cut off from the API server; at every boundary: an instance silent for > 36 s under a stable leader has no condition on record, an instance whose heartbeats arrive at the stable leader with gaps < 3 s keeps its condition; at the end a survivor must be granted the in-flight capacity not held by live instances; distinct = distinct trace hash; non-trivial = both clauses were evaluated. One joining instance in three sends its first acquire 50-1200 ms after its start, i.e. possibly before its first heartbeat, and may die at once",
+		Rule: "each run = 1-2 replicas (store local / API-backed write-through / periodic), one upstream with an allocate and a count schema, 2-4+ instances with real client sets (heartbeats every second); 25-90 steps of allocate reports, acquire reports, clock advances (1-36 s), instances dying or being cut off, coming back with the old identity or joining anew, a replica cut off from the API server; at every boundary: an instance silent for > 36 s under a stable leader has no condition on record, an instance whose heartbeats arrive at the stable leader with gaps < 3 s keeps its condition; at the end a survivor must be granted the in-flight capacity not held by live instances; distinct = distinct trace hash; non-trivial = both clauses were evaluated. Instance names follow a drawn --client-id-prefix style (plain; with the in-memory store also host:port or longer than 63 characters). One joining instance in three sends its first acquire 50-1200 ms after its start, i.e. possibly before its first heartbeat, and may die at once",
 		Real: rlReal, Stub: rlStub, Assume: append([]string{"'the cleanup period' is read as the longer of the two shipped mechanisms: 3 s heartbeat timeout + 30 s sweep + 2 s", "heartbeat arrival is observed on the simulated network"}, rlAssume...),
 	})
 	reg(&Check{ID: "SMOKE", Title: "debug", Batches: []Batch{{World: "gw", Profile: "smoke", Quick: 1, Thor: 1, PerProc: 1}}})
